@@ -13,6 +13,8 @@ import RbV.Thm.GenTbCodes
 import RbV.Thm.GenSrcPwTypes
 import RbV.Thm.GenSrcPwModes
 import RbV.Thm.GenSrcPwCustom
+import RbV.Thm.GenSrcPwKeeps
+import RbV.Thm.GenSrcPwColumn
 /-!
 # C01 — pairwise alignment is optimal and its reported path achieves the reported score
 
@@ -702,6 +704,61 @@ example : srcRun scU.w (-5) (-1) minScore minScore minScore minScore [] [0] =
 -- an `i32` overflow of the text is the `overflow` of the mirror
 example : srcRun (fun _ _ => 2000000000) (-5) (-1) 0 0 0 0 [0, 0] [0, 0] = .overflow ∧
     RbV.Model.PairwiseFill.customC ⟨fun _ _ => 2000000000, -5, -1⟩ clLocal [0, 0] [0, 0] = .overflow := by decide +kernel
+
+/-- **The translated `Aligner::custom` does not write `self.scoring`** (every match function, tie-break, fuel): proved by a
+traversal of every path of every translated helper (`Thm/GenSrcPwKeeps.lean`). -/
+theorem custom_source_keeps_scoring (w : Nat → Nat → Int) (iT dT snT sn0T : Int → Int → Bool) (fuel : Nat) :
+    GenSrcPwModes.KeepsScoring (fun s x y => RbV.Gen.SrcPwCustom.custom w iT dT snT sn0T s x y fuel) :=
+  GenSrcPwKeeps.custom_keeps_scoring w iT dT snT sn0T fuel
+
+/-- **History independence of the scoring, translated wrappers over the translated `custom`** (no hypothesis left): after
+`global`, `semiglobal`, `local` — and after `custom` itself — the aligner's `scoring` is exactly what it was before the call. -/
+theorem mode_wrappers_source_history_independent (w : Nat → Nat → Int) (iT dT snT sn0T : Int → Int → Bool) (fuel : Nat)
+    (a a' : RbV.Gen.SrcPwTypes.Aligner) (x y : List Nat) (al : Alignment) :
+    (RbV.Gen.SrcPwModes.global_ (fun s x y => RbV.Gen.SrcPwCustom.custom w iT dT snT sn0T s x y fuel) a x y = .ok (al, a') →
+      a'.scoring = a.scoring) ∧
+    (RbV.Gen.SrcPwModes.semiglobal_ (fun s x y => RbV.Gen.SrcPwCustom.custom w iT dT snT sn0T s x y fuel) a x y = .ok (al, a') →
+      a'.scoring = a.scoring) ∧
+    (RbV.Gen.SrcPwModes.local_ (fun s x y => RbV.Gen.SrcPwCustom.custom w iT dT snT sn0T s x y fuel) a x y = .ok (al, a') →
+      a'.scoring = a.scoring) ∧
+    (RbV.Gen.SrcPwCustom.custom w iT dT snT sn0T a x y fuel = .ok (al, a') → a'.scoring = a.scoring) :=
+  have hk := GenSrcPwKeeps.custom_keeps_scoring w iT dT snT sn0T fuel
+  ⟨GenSrcPwModes.global_source_restores_scoring _ hk a x y al a', GenSrcPwModes.semiglobal_source_restores_scoring _ hk a x y al a',
+   GenSrcPwModes.local_source_restores_scoring _ hk a x y al a', fun h => hk a x y al a' h⟩
+
+/-- **`custom_fill_source_eq_model_partial` — the inner loop of a column (translated text) = the rows of the checked-`i32`
+mirror, for every tie-break `T`.**  From a state that holds rows `0 ..= i` of column `j` (`ColInv`: the `curr` halves of
+`S/I/D`, the register `S[curr][m]`, `Sn`, `Ly`, `Lx[j]`, the bit-packed cells `(k, j)`; the previous column in the `prev`
+halves; frame `oc`, `olx` for every other column), the translated `for i in i+1 ..= m` panics exactly when one of the
+remaining rows `stepJT T …` is `none` (an `i32` overflow), and otherwise ends in a state that holds the whole column
+(`ColInv … m`, rows = `colRows (stepT T …)`), with `scoring` and the frame untouched.
+**Missing for `custom_fill_source_eq_model`** (not proved; every piece is translated and evaluated in the examples above):
+the column-0 initialisation (`custom_for1/2`: establishes `ColInv` for column 0), the `i = 0` block and the reset loop of a column
+(`custom_for3` up to its inner loop: establishes `ColInv … 0` from the previous column), the induction over `j`, the two
+post-loops (`custom_for6/7`), and `colRows` of all columns = `fillC` with the pinned tie-breaks. -/
+theorem custom_fill_source_eq_model_partial (w : Nat → Nat → Int) (T : GenSrcPwCustom.Ties) (x : List Nat) (m n j q : Nat)
+    (xc : Int) (pc : List RbV.Model.PairwiseFill.Row) (oc : Nat → Nat → RbV.Gen.SrcPwTypes.TracebackCell) (olx : Nat → Nat)
+    (hx : x.length = m) (hj : 1 ≤ j) (hjn : j ≤ n) (k i : Nat) (a : RbV.Gen.SrcPwTypes.Aligner)
+    (cur : List RbV.Model.PairwiseFill.Row) (hinv : GenSrcPwColumn.ColInv a m n j i pc cur oc olx) (hlen : cur.length = i + 1)
+    (hik : i + k = m) :
+    match GenSrcPwColumn.colRows (GenSrcPwColumn.stepT T (GenSrcPwCustom.scOf w a) (GenSrcPwCustom.clOf a) x m n j q xc pc) k i cur with
+    | none => List.foldlM (RbV.Gen.SrcPwCustom.custom_for5 w T.iT T.dT T.snT T.sn0T x m n j (j % 2) (1 - j % 2) q xc) a
+        (List.range' (i + 1) k) = Res.panic
+    | some col => ∃ a', List.foldlM (RbV.Gen.SrcPwCustom.custom_for5 w T.iT T.dT T.snT T.sn0T x m n j (j % 2) (1 - j % 2) q xc) a
+        (List.range' (i + 1) k) = Res.ok a' ∧ GenSrcPwColumn.ColInv a' m n j m pc col oc olx ∧ col.length = m + 1 ∧
+        a'.scoring = a.scoring :=
+  GenSrcPwColumn.column_loop w T x m n j q xc pc _ _ oc olx hx hj hjn k i a cur hinv hlen hik rfl rfl
+
+/-- **The reset loop of a column (translated text)**: `for i in 1..=m { self.S[curr][i] = MIN_SCORE; }` over `i .. i + k` overwrites
+exactly the entries `S[curr][i .. i + k)` with `MIN_SCORE` and touches nothing else (one more piece of
+`custom_fill_source_eq_model`; establishes the clause `hReset` of `ColInv` for the next column). -/
+theorem column_reset_loop_source_eq_model (w : Nat → Nat → Int) (iT dT snT sn0T : Int → Int → Bool) (c : Nat) (hc : c < 2)
+    (k i : Nat) (a : RbV.Gen.SrcPwTypes.Aligner) (l : List Int) (hS : a.S.length = 2) (hl : a.S.getD c [] = l)
+    (hik : i + k ≤ l.length) :
+    ∃ l', List.foldlM (RbV.Gen.SrcPwCustom.custom_for4 w iT dT snT sn0T c) a (List.range' i k) = .ok { a with S := a.S.set c l' } ∧
+      l'.length = l.length ∧ (∀ t, i ≤ t → t < i + k → l'.getD t 0 = minScore) ∧
+      (∀ t, (t < i ∨ i + k ≤ t) → l'.getD t 0 = l.getD t 0) :=
+  GenSrcPwColumn.reset_loop w iT dT snT sn0T c hc k i a l hS hl hik
 
 end SourceText
 
